@@ -32,7 +32,11 @@ type killedHandler struct {
 func (h *killedHandler) handleChildDeath() {
 	if !h.message.Ref.Equals(h.ctx.ref) {
 		h.ctx.childrenLock.Lock()
-		delete(h.ctx.children, h.message.Ref.GetPath())
+		// 仅移除恰好是这一个已终止的子 Actor：子 Actor 先注销路径、后通知父级，此通知到达之前该名字可能已被
+		// 父级重新创建的同名子 Actor 占用，按路径删除会把新的子 Actor 从表中抹掉，使其成为无人终止的孤儿。
+		if child, ok := h.ctx.children[h.message.Ref.GetPath()]; ok && child == h.message.Ref {
+			delete(h.ctx.children, h.message.Ref.GetPath())
+		}
 		childrenCount := len(h.ctx.children)
 		h.ctx.childrenLock.Unlock()
 		h.ctx.executeBehaviorWithRecovery(h.behavior)
